@@ -175,6 +175,7 @@ type tgt struct {
 	specs []siteSpec
 	base  int
 	sizes types.Sizes // the RunContext's Sizes for this file (Type.Size must follow them)
+	gover string      // the RunContext's GoVersion for this file ("": not set -- every GoVersion() predicate holds)
 	byPos map[int]*filt.Site
 	byJ   map[int][]*filt.Site
 }
@@ -306,7 +307,7 @@ func atomPool() []atom {
 }
 
 func baseAtoms() []atom {
-	return []atom{
+	return append([]atom{
 		{d: filt.Sel("Pure", "x"), panics: false},
 		{d: filt.Sel("Const", "x"), panics: false},
 		{d: filt.Sel("Const", "y"), panics: false},
@@ -319,6 +320,20 @@ func baseAtoms() []atom {
 		{d: filt.Call("Type.ConvertibleTo", "y", filt.Str("string")), panics: false},
 		{d: filt.Call("Filter", "x", filt.Ident("longName")), panics: false},
 		{d: filt.Call("Filter", "y", filt.Ident("boom")), panics: true},
+	}, fileAtoms()...)
+}
+
+// fileAtoms: predicates about the FILE (its imports, its name, its package path) and about the Go version of the run -- the same
+// answer for every match of a file, and another one in the next file: the three analysed files are run with no Go version (every
+// GoVersion() predicate holds), 1.18 and 1.21; none of them imports anything; one is called never_saved.go
+func fileAtoms() []atom {
+	return []atom{
+		{d: filt.Call("File.Imports", "", filt.Str("fmt"))},
+		{d: filt.Call("GoVersion.GreaterEqThan", "", filt.Str("1.20"))},
+		{d: filt.Call("GoVersion.LessThan", "", filt.Str("1.20"))},
+		{d: filt.Call("GoVersion.Eq", "", filt.Str("1.30"))},
+		{d: filt.Call("File.Name.Matches", "", filt.Str("never_saved"))},
+		{d: filt.Call("File.PkgPath.Matches", "", filt.Str("nosuchpkg"))},
 	}
 }
 
@@ -953,12 +968,12 @@ func main() {
 	// older, shorter one (the engine slices the captures that lie inside it and prints the others)
 	var tgts []*tgt
 	nSites := 0
-	addTarget := func(name string, specs []siteSpec, sizes types.Sizes, t *hutil.Target, err error) {
+	addTarget := func(name string, specs []siteSpec, sizes types.Sizes, gover string, t *hutil.Target, err error) {
 		if err != nil {
 			fmt.Fprintln(os.Stderr, err)
 			os.Exit(3)
 		}
-		tg := &tgt{name: name, t: t, specs: specs, base: nSites, sizes: sizes}
+		tg := &tgt{name: name, t: t, specs: specs, base: nSites, sizes: sizes, gover: gover}
 		tg.byPos, tg.byJ = filt.IndexSites(t)
 		for j := 0; j < W; j++ {
 			if len(tg.byJ[j]) != len(specs) {
@@ -972,12 +987,12 @@ func main() {
 	diskSrc, _ := targetSource(siteSpecs, false)
 	t, err := hutil.CheckTarget(*tmp, "target/target.go", []byte(diskSrc))
 	amd64, i386 := types.SizesFor("gc", "amd64"), types.SizesFor("gc", "386")
-	addTarget("disk", siteSpecs, amd64, t, err)
+	addTarget("disk", siteSpecs, amd64, "", t, err)
 	detSrc, rowStart := targetSource(detachedSpecs, true)
 	mt, err := filt.CheckDetachedTarget(filepath.Join(*tmp, "detached", "never_saved.go"), []byte(detSrc), nil)
-	addTarget("mem", detachedSpecs, i386, mt, err) // analysed for a 32-bit platform: other sizes of int, pointers, slices, strings
+	addTarget("mem", detachedSpecs, i386, "1.18", mt, err) // analysed for a 32-bit platform: other sizes of int, pointers, slices, strings
 	st, err := filt.CheckDetachedTarget(filepath.Join(*tmp, "detached", "older_on_disk.go"), []byte(detSrc), []byte(detSrc[:rowStart[len(detachedSpecs)/2]]))
-	addTarget("stale", detachedSpecs, amd64, st, err)
+	addTarget("stale", detachedSpecs, amd64, "1.21", st, err)
 
 	// runTargets runs the engine over the targets in order (one sequence of matches: a panic ends it)
 	var runTargetsDebug func(e *ruleguard.Engine, debug string, sink func(r hutil.Report, j, site int)) (string, []string)
@@ -989,7 +1004,7 @@ func main() {
 	runTargetsDebug = func(e *ruleguard.Engine, debug string, sink func(r hutil.Report, j, site int)) (string, []string) {
 		var lines []string
 		for _, tg := range tgts {
-			reports, pmsg := runWithSizes(e, tg.t, tg.sizes, debug, &lines)
+			reports, pmsg := runWithSizes(e, tg.t, tg.sizes, tg.gover, debug, &lines)
 			for _, r := range reports {
 				s := tg.byPos[r.Pos]
 				if s == nil {
@@ -1147,6 +1162,31 @@ func main() {
 		boom := filt.Call("Filter", "y", filt.Ident("boom"))
 		add(fam, "and_boom", filt.And(F, boom), -1)
 		add(fam, "or_boom", filt.Or(F, boom), -1)
+	}
+	// ---- file-level operands FIRST: a predicate about the file (or the Go version) as the leftmost operand of a filter, under `||`
+	// as well as under `&&`, nested on either side: the files in which it is false still have the matches the other operands
+	// accept (an engine that decides per file from the first operand may only do so when every operator above it is `&&`)
+	for f, fa := range fileAtoms() {
+		fam := fmt.Sprintf("filelead%d", f)
+		famIndex = f
+		F := fa.d
+		// A, B: operands over the captures that accept some sites and reject others (redrawn per family)
+		A, B := g.sub(1, false), g.sub(1+rng.Intn(2), false)
+		add(fam, "F_or_A", filt.Or(F, A), -1)
+		add(fam, "F_or_AaB", filt.Or(F, filt.And(A, B)), -1)
+		add(fam, "pFoA_and_B", filt.And(filt.Paren(filt.Or(F, A)), B), -1)
+		add(fam, "pFaA_or_B", filt.Or(filt.Paren(filt.And(F, A)), B), -1)
+		add(fam, "FaA_or_B", filt.Or(filt.And(F, A), B), -1)
+		add(fam, "FoA_or_B", filt.Or(filt.Or(F, A), B), -1)
+		add(fam, "ppFoA_or_B", filt.Or(filt.Paren(filt.Paren(filt.Or(F, A))), B), -1)
+		add(fam, "pF_or_A", filt.Or(filt.Paren(F), A), -1)
+		add(fam, "not_FaA", filt.Not(filt.Paren(filt.And(F, A))), -1)
+		add(fam, "notF_or_A", filt.Or(filt.Not(F), A), -1)
+		add(fam, "A_or_F", filt.Or(A, F), -1)
+		add(fam, "F_and_A", filt.And(F, A), -1)
+		add(fam, "F_and_pAoB", filt.And(F, filt.Paren(filt.Or(A, B))), -1)
+		add(fam, "F_or_notA", filt.Or(F, filt.Not(A)), -1)
+		add(fam, "F_or_F2", filt.Or(F, fileAtoms()[(f+1)%len(fileAtoms())].d), -1)
 	}
 	// ---- guard families: a predicate that is only defined behind its guard (it dereferences the slice type the guard established)
 	// must never be consulted where the guard decides
@@ -1761,7 +1801,7 @@ var debugBatches = true
 
 // runWithSizes: hutil.Run with the platform sizes of the RunContext chosen by the caller; the reports delivered before a
 // panic are kept.
-func runWithSizes(e *ruleguard.Engine, t *hutil.Target, sizes types.Sizes, debug string, debugLines *[]string) (reports []hutil.Report, panicMsg string) {
+func runWithSizes(e *ruleguard.Engine, t *hutil.Target, sizes types.Sizes, gover, debug string, debugLines *[]string) (reports []hutil.Report, panicMsg string) {
 	defer func() {
 		if r := recover(); r != nil {
 			panicMsg = fmt.Sprint(r)
@@ -1782,6 +1822,13 @@ func runWithSizes(e *ruleguard.Engine, t *hutil.Target, sizes types.Sizes, debug
 			}
 			reports = append(reports, r)
 		}}
+	if gover != "" {
+		v, err := ruleguard.ParseGoVersion(gover)
+		if err != nil {
+			return nil, "harness: " + err.Error()
+		}
+		ctx.GoVersion = v
+	}
 	if err := e.Run(ctx, t.File); err != nil {
 		return reports, "run error: " + err.Error()
 	}
